@@ -114,6 +114,12 @@ pub fn prepare(c: &Case, built: &vpmodel::spec::Built) -> Prepared {
     let tip = built.tip();
     let n = built.blocks.len();
     let mut plan = canonical_plan(built.coin, &built.blocks);
+    // active records carry the status words a node really stores for connected blocks: with or without undo data
+    // (genesis has none), with OPT_WITNESS (128), with the assumeutxo flag (256, with validity TRANSACTIONS or SCRIPTS)
+    for r in plan.recs.iter_mut() {
+        let base = VALID_SCRIPTS | HAVE_DATA | HAVE_UNDO;
+        r.status = [base, base, base | 128, VALID_SCRIPTS | HAVE_DATA, base | 256, VALID_TRANSACTIONS | HAVE_DATA | 256, base | 128 | 256, VALID_SCRIPTS | HAVE_DATA | 128][(r.hash[5] % 8) as usize];
+    }
     // extra records + data (appended to a second file)
     let mut extra_segs: Vec<Seg> = Vec::new();
     // winners[height] = candidate blocks with data at that height (hash, block) incl. the active one
